@@ -126,6 +126,8 @@ class TlcResult:
                 self.violated = "temporal"
             if line.startswith("Error: Deadlock reached"):
                 self.violated = "deadlock"
+            if line.startswith("Error: Postcondition"):
+                self.violated = "postcondition"
             if line.startswith("Error:") and self.violated is None and self.error is None:
                 self.error = line
             m = re.match(r"^<(\w+) line \d+, col \d+ to line \d+, col \d+ of module (\w+)>: (\d+):(\d+)", line)
@@ -343,3 +345,20 @@ def main(argv):
         log("TOOL-ERROR %s: %s" % (pid, e))
         sys.exit(2)
     sys.exit(rc)
+
+
+def tlc_trace(module, trace_path, env=None, timeout=900, cfg=None):
+    """validate an ndjson trace against spec/<module>; returns (accepted, reject_line_no, reject_record, TlcResult)"""
+    e = {"TRACE": trace_path}
+    if env:
+        e.update(env)
+    res = tlc(module, cfg=cfg, env=e, workers=1, timeout=timeout, deque=True, xmx="6g", allow_violation=True,
+              extra=None)
+    rej = [(i, v) for (t, i, v) in res.records if t == "REJECT"]
+    if rej:
+        return False, rej[0][0], rej[0][1], res
+    if "Postcondition" in res.text and "is false" in res.text:
+        return False, -1, None, res
+    if res.violated:
+        raise ToolError("trace spec %s: TLC reports %s\n%s" % (module, res.violated, res.text[-2000:]))
+    return True, None, None, res
